@@ -67,6 +67,36 @@ theorem finish_not_inflight (cfg : Cfg) (s : St) (r : Result) :
     (finish cfg s r).phase.inflight = false := by
   rcases finish_phase cfg s r with h | h <;> simp [h, Phase.inflight]
 
+theorem finishBody_phase (cfg : Cfg) (s : St) (r : Result) :
+    (finishBody cfg s r).phase = .done ∨ (finishBody cfg s r).phase = .retrySleep := by
+  unfold finishBody; split
+  · exact finish_phase cfg s r
+  · simp
+
+theorem finishBody_res (cfg : Cfg) (s : St) (r : Result) : (finishBody cfg s r).res = s.res := by
+  unfold finishBody; split
+  · exact finish_res cfg s r
+  · rfl
+
+theorem finishBody_ctx (cfg : Cfg) (s : St) (r : Result) : (finishBody cfg s r).ctx = s.ctx := by
+  unfold finishBody; split
+  · exact finish_ctx cfg s r
+  · rfl
+
+theorem finishBody_sleepsDone (cfg : Cfg) (s : St) (r : Result) :
+    (finishBody cfg s r).sleepsDone = s.sleepsDone := by
+  unfold finishBody; split
+  · exact finish_sleepsDone cfg s r
+  · rfl
+
+theorem finishBody_rank_le (cfg : Cfg) (s : St) (r : Result) :
+    phaseRank (finishBody cfg s r).phase ≤ 1 := by
+  rcases finishBody_phase cfg s r with h | h <;> simp [h, phaseRank]
+
+theorem finishBody_not_inflight (cfg : Cfg) (s : St) (r : Result) :
+    (finishBody cfg s r).phase.inflight = false := by
+  rcases finishBody_phase cfg s r with h | h <;> simp [h, Phase.inflight]
+
 theorem closeBody_bodyOpen (r : Res) : r.closeBody.bodyOpen = false := by
   unfold Res.closeBody; split <;> simp_all
 
@@ -94,6 +124,7 @@ theorem closeBody_fields (r : Res) :
 @[simp] theorem cb_bodyOpen (r : Res) : r.closeBody.bodyOpen = false := closeBody_bodyOpen r
 
 attribute [simp] finish_res finish_ctx finish_sleepsDone finish_not_inflight
+attribute [simp] finishBody_res finishBody_ctx finishBody_sleepsDone finishBody_not_inflight
 
 theorem rank_inflight {p : Phase} (h : p.inflight = true) : phaseRank p = 2 := by
   revert h; cases p <;> simp [Phase.inflight, phaseRank]
@@ -128,6 +159,11 @@ theorem mu_finish_le (cfg : Cfg) (s : St) (r : Result) : mu cfg (finish cfg s r)
   have := finish_rank_le cfg s r
   simp [mu]; omega
 
+theorem mu_finishBody_le (cfg : Cfg) (s : St) (r : Result) :
+    mu cfg (finishBody cfg s r) ≤ 1 + rest s.res := by
+  have := finishBody_rank_le cfg s r
+  simp [mu]; omega
+
 @[simp] theorem release_owned (c : Conn) : (c.release = .owned) = False := by cases c <;> simp [Conn.release]
 @[simp] theorem release_ready (c : Conn) : (c.release = .ready) = (c = .ready) := by cases c <;> simp [Conn.release]
 @[simp] theorem release_bgDial (c : Conn) : (c.release = .bgDial) = (c = .bgDial) := by cases c <;> simp [Conn.release]
@@ -142,6 +178,15 @@ theorem mu_finish_le (cfg : Cfg) (s : St) (r : Result) : mu cfg (finish cfg s r)
 @[simp] theorem unready_none (c : Conn) : (c.unready = .none) = (c = .none) := by cases c <;> simp [Conn.unready]
 @[simp] theorem unready_beq_owned (c : Conn) : (c.unready == .owned) = (c == .owned) := by cases c <;> decide
 @[simp] theorem unready_beq_ready (c : Conn) : (c.unready == .ready) = false := by cases c <;> decide
+@[simp] theorem giveUp_ready (h) (c : Conn) : (c.afterGiveUp h = .ready) = False := by cases c <;> cases h <;> simp [Conn.afterGiveUp]
+@[simp] theorem giveUp_owned (h) (c : Conn) : (c.afterGiveUp h = .owned) = (c = .owned) := by cases c <;> cases h <;> simp [Conn.afterGiveUp]
+@[simp] theorem giveUp_closed (h) (c : Conn) : (c.afterGiveUp h = .closed) = (c = .closed) := by cases c <;> cases h <;> simp [Conn.afterGiveUp]
+@[simp] theorem giveUp_bgDial (h) (c : Conn) : (c.afterGiveUp h = .bgDial) = (c = .bgDial ∧ h = false) := by cases c <;> cases h <;> simp [Conn.afterGiveUp]
+@[simp] theorem giveUp_beq_owned (h) (c : Conn) : (c.afterGiveUp h == .owned) = (c == .owned) := by cases c <;> cases h <;> decide
+@[simp] theorem h3Fail_owned (d) (c : Conn) : (c.afterH3Fail d = .owned) = False := by cases c <;> cases d <;> simp [Conn.afterH3Fail]
+@[simp] theorem h3Fail_ready (d) (c : Conn) : (c.afterH3Fail d = .ready) = (c = .ready) := by cases c <;> cases d <;> simp [Conn.afterH3Fail]
+@[simp] theorem h3Fail_bgDial (d) (c : Conn) : (c.afterH3Fail d = .bgDial) = (c = .bgDial) := by cases c <;> cases d <;> simp [Conn.afterH3Fail]
+@[simp] theorem h3Fail_beq_owned (d) (c : Conn) : (c.afterH3Fail d == .owned) = false := by cases c <;> cases d <;> decide
 @[simp] theorem kill_open (t : Stream) : (t.kill = .open) = False := by cases t <;> simp [Stream.kill]
 @[simp] theorem kill_reset (t : Stream) : (t.kill = .reset) = (t = .open ∨ t = .reset) := by cases t <;> simp [Stream.kill]
 @[simp] theorem kill_none (t : Stream) : (t.kill = .none) = (t = .none) := by cases t <;> simp [Stream.kill]
@@ -202,7 +247,7 @@ theorem mu_dec (cfg : Cfg) (s : St) (a : Act) (h : guard cfg s a = true) :
     obtain ⟨⟨h1, h2⟩, h3⟩ := h
     have h5 := rank_body h2
     simp only [apply]
-    refine Nat.lt_of_le_of_lt (mu_finish_le _ _ _) ?_
+    refine Nat.lt_of_le_of_lt (mu_finishBody_le _ _ _) ?_
     simp [mu, h5]
     omega
   case h2RtCancel =>
@@ -235,7 +280,7 @@ theorem mu_dec (cfg : Cfg) (s : St) (a : Act) (h : guard cfg s a = true) :
     obtain ⟨⟨h1, h2⟩, h3⟩ := h
     have h5 := rank_body h2
     simp only [apply]
-    refine Nat.lt_of_le_of_lt (mu_finish_le _ _ _) ?_
+    refine Nat.lt_of_le_of_lt (mu_finishBody_le _ _ _) ?_
     simp [mu, h5]
     omega
   case h3WatchFire =>
@@ -257,7 +302,7 @@ theorem mu_dec (cfg : Cfg) (s : St) (a : Act) (h : guard cfg s a = true) :
     obtain ⟨⟨h1, h2⟩, h3⟩ := h
     have h5 := rank_body h2
     simp only [apply]
-    refine Nat.lt_of_le_of_lt (mu_finish_le _ _ _) ?_
+    refine Nat.lt_of_le_of_lt (mu_finishBody_le _ _ _) ?_
     simp [mu, rest, h5]
     omega
   case sleepWake =>
